@@ -1,5 +1,5 @@
-// Counterexample found by mirsym/z3 for property C20, template pair_nested_pair: |x, y, z| { z == (y, p0), q == (x, z), x == p1, y == [x] } with parameters [0, 0]: an answer (term or reported constraint) mentions the program variable(s) ['y'] instead of reified `_` variables
-// Replay: /verif/check C20 --replay /verif/replay/cases/C20-pair_nested_pair_unreified_variable.rs
+// Counterexample found by mirsym/z3 for property C20, template cs_option_shapes: |x, y| { q == [x, y], conde { Node(x, Some(Leaf(y))) == Node(p0, None), [Node(x, None) == Node(p0, Some(Leaf(p1))), y == 0], [Node(x, None) == Node(p1, None), y == 1], Node(x, Some(Leaf(y))) == Node(p with parameters [-2, 1]: engine answer 0 is not a reference answer (or is returned too often) (expected answers ['[1, 1]', '[-2, 1]'], engine answers ['[-2, _]', '[-2, 0]', '[-2, 1]', '[1, 1]'])
+// Replay: /verif/check C20 --replay /verif/replay/cases/C20-cs_option_shapes_answers.rs
 #![allow(unused_imports, unused_variables, unused_mut)]
 use proto_vulcan::prelude::*;
 use proto_vulcan::lterm::LTerm;
@@ -48,6 +48,18 @@ pub fn twice(g: Goal<TU, TE>) -> Goal<TU, TE> {
     let g2 = g.clone();
     proto_vulcan!([g, g2])
 }
+#[compound]
+struct Leaf(LTerm);
+#[compound]
+struct Wrap(LTerm);
+#[compound]
+struct Pt(LTerm, LTerm);
+#[compound]
+struct Node(LTerm, Option<Leaf>);
+#[compound]
+struct Named { a: LTerm, b: Leaf }
+#[compound]
+struct Tree(LTerm, Tree, Tree);
 
 const LIMIT: usize = 64;
 
@@ -64,15 +76,16 @@ fn replay() {
 }
 
 fn body() {
-    let p0: T = LTerm::from(0);
-    let p1: T = LTerm::from(0);
+    let p0: T = LTerm::from(-2);
+    let p1: T = LTerm::from(1);
     let query = proto_vulcan_query!(|q| {
-        |x, y, z| { z == (y, p0), q == (x, z), x == p1, y == [x] }
+        |x, y| { q == [x, y], conde { Node(x, Some(Leaf(y))) == Node(p0, None), [Node(x, None) == Node(p0, Some(Leaf(p1))), y == 0], [Node(x, None) == Node(p1, None), y == 1], Node(x, Some(Leaf(y))) == Node(p0, Some(Leaf(p1))) } }
     });
-    for r in query.run().take(LIMIT) {
-        let s = format!("{}", r.q);
-        for tok in s.split(|c: char| !(c.is_alphanumeric() || c == '_')) {
-            assert!(!["y"].contains(&tok), "answer `{}` mentions the program variable {}", s, tok);
-        }
-    }
+    let re = |s: String| { let mut o = String::new(); let mut it = s.chars().peekable();
+        while let Some(c) = it.next() { o.push(c); if c == '_' { if it.peek() == Some(&'.') { it.next(); while it.peek().map_or(false, |d| d.is_ascii_digit()) { it.next(); } } } } o };
+    let mut got: Vec<String> = query.run().take(LIMIT).map(|r| re(format!("{}", *r.q))).collect();
+    let mut expected: Vec<String> = vec!["[1, 1]".to_string(), "[-2, 1]".to_string()];
+    got.sort();
+    expected.sort();
+    assert_eq!(got, expected);
 }
